@@ -888,6 +888,17 @@ func ruleC18Lockset(c *Ctx) {
 				writesLine = true
 			}
 		})
+		ec := c.newEventCounter(func(in ssa.Instruction) int {
+			if call, ok := in.(*ssa.Call); ok && strings.HasPrefix(calleeQ(&call.Call), "fmt.Fprint") {
+				return 1
+			}
+			return 0
+		}, false)
+		if r := ec.function(f); writesLine && (r.Min != 1 || r.Max != 1) {
+			c.violate("C18.lockset", "Done:final-line-once", f.Pos(), fnName(f), fmt.Sprintf("Done writes the final line %s times (must be exactly once on every path): a phase could end without its LF-terminated line, or with two", rangeStr(r)))
+		} else if writesLine {
+			c.hold("C18.lockset", "Done:final-line-once", f.Pos(), "every path through Done writes exactly one line")
+		}
 		if invalidates && writesLine {
 			c.hold("C18.lockset", "Done", f.Pos(), "replaces the ticker and writes the final line while holding the lock")
 		} else {
